@@ -146,6 +146,10 @@ func c10Drivers() []*icCfg {
 			Scripts: [][]icOp{{L(1)}, {C}}, Post: []icOp{{Kind: "est"}, G(1), S(3), {Kind: "len"}, W}},
 		// "every call terminates" without any Close to rescue a parked caller: concurrent Wait callers with writers and a size poller
 		{Name: "D11-no-close-two-waiters", O: q2, Scripts: [][]icOp{{S(1), W}, {S(2), W}, {{Kind: "est"}, G(1)}}, Post: epi},
+		// a failing secondary call on the way (scripted: the first Secondary.Delete / the first Secondary.Get fails): the call
+		// returns its error, and Close and the calls after it must still return
+		{Name: "D10c-hybrid-failed-delete", O: hOpts{MaxSize: 1, ChanSize: 2, BufSize: 2}, Hy: &hyIcCfg{Workers: 1, Prob: 1, Faults: "D1,G1"}, Pre: []icOp{S(1), S(2), W},
+			Scripts: [][]icOp{{{Kind: "hdel", K: 1}, {Kind: "hget", K: 2}}, {C}}, Post: []icOp{{Kind: "est"}, G(1), S(3), {Kind: "len"}, W}},
 		{Name: "D6-close-close", O: q2, Pre: []icOp{S(1)}, Scripts: [][]icOp{{C}, {C}, {S(2)}}, Post: epi},
 	}
 }
